@@ -140,10 +140,51 @@ def _norm(x):
     return x
 
 
+def _decode_tie(ctx, env):
+    """`Lex.decodeSQ` / `Lex.decodeDQ` (the parser's `_decode_string_literal`: two `replace` and `json.loads`) through their own driver
+    operation (`lex.decode`), on every token value the quoted-string rules can produce that is a sequence of <= 3 units - a plain
+    character or a backslash followed by a character - plus `\\uXXXX` escapes (either case, controls, surrogate pairs, lone and reversed
+    surrogates, too few digits). A result holding a lone surrogate is outside the model's strings (`outside`) and is not compared."""
+    from jsonpath.parse import Parser
+    from jsonpath.token import TOKEN_DOUBLE_QUOTE_STRING, TOKEN_SINGLE_QUOTE_STRING, Token
+
+    parser = Parser(env=env)
+    plain = ["a", "u", "n", "0", "/", " ", "\x01", "\x1f", "\x7f", "\u00e9", "\u2028", "\U0001f600"]
+    esc = ["\\" + c for c in ["\\", "'", '"', "/", "b", "f", "n", "r", "t", "u", "x", "a", "0", " ", "\u00e9"]]
+    uni = ["\\u0041", "\\u00e9", "\\u00E9", "\\u0000", "\\u001f", "\\u2028", "\\ud83d\\ude00", "\\uD83D\\uDE00", "\\ud83d", "\\ude00", "\\ude00\\ud83d",
+           "\\ud83dx", "\\ud83d\\u0041", "\\u004", "\\u00g1", "\\u", "\\U0041", "\\u0041\\u0042", "\\\\u0041", "\\u005c", "\\u0027", "\\u0022"]
+    for q, kind in (("'", TOKEN_SINGLE_QUOTE_STRING), ('"', TOKEN_DOUBLE_QUOTE_STRING)):
+        units = plain + [("'" if q == '"' else '"')] + esc
+        vals = [""] + units + [a + b for a in units for b in units] + uni + [a + x + b for x in uni for a in ("", "a", "\\n") for b in ("", "b", "\\\\")]
+        vals += [a + b + c for a in units[::3] for b in units[::2] for c in units[::3]]
+        vals = list(dict.fromkeys(vals))
+        outs = ctx.driver.run([{"op": "lex.decode", "v": v, "q": q} for v in vals], jobs=ctx.jobs)
+        for v, m in zip(vals, outs):
+            r = core.outcome(lambda: parser._decode_string_literal(Token(kind, v, 0, "$[" + q + v + q + "]")))
+            ctx.case(("lex.decode", q, v), nontrivial=bool(v))
+            if m.get("err") == "outside":
+                ctx.count("lex.decode:outside")
+                continue
+            if "ok" in r:
+                try:
+                    r["ok"].encode("utf-8")
+                except UnicodeEncodeError:
+                    ctx.mismatch("lex.decode", {"value": v, "quote": q}, "a string with a lone surrogate", m)
+                    continue
+                impl = {"ok": r["ok"]}
+            else:
+                impl = {"err": "syntax" if r["err"] == "JSONPathSyntaxError" else r["err"]}
+            if impl != m:
+                ctx.mismatch("lex.decode", {"value": v, "quote": q}, impl, m)
+
+
 def evaluate(ctx, cases):
     import jsonpath
 
     env = jsonpath.DEFAULT_ENV
+    if not getattr(ctx, "_decode_tie_done", False):
+        ctx._decode_tie_done = True
+        _decode_tie(ctx, env)
     # --- character-level correspondence with the Lean lexer / printer model (JP.Lex)
     from .. import lexcorr
     texts = [c["text"] for c in cases] + lexer_soup(ctx)
